@@ -24,10 +24,20 @@ CLAIMED = {
                 text="The attribute state machine is extracted from the source (48 state x class transitions + end-of-input actions) and the finite product with the grammar transducer of the property statement is explored completely: on every prefix of every well-formed tag body, of any length, both emit the same word/value spans and accept together; quoted values are opaque; delimiters are stripped by once-only operations. Extraction and the grammar table are the trusted base.", ref="5 C09 / 3.5"),
     "C10": dict(cat="other", tech="static analysis: linear must-flow by path enumeration of one iteration of parser::tree's loop (abstract interpretation) + name-use discipline query",
                 text="Token linearity only: on each of the enumerated paths of the loop body the fetched token is placed exactly once and the child list of the recursive call is consumed exactly once; parse() starts at token 0. Pairing semantics (innermost match, demotion, order) are not decided.", ref="5 C10"),
+    "C12": dict(cat="other", tech="static analysis: provenance/clamp query on dedent ranges + scanner byte tables + path rule on the backward scanner (byte 0) + index-space rule with symbolic linear forms on merge_markers",
+                text="Four clauses: only blanks are consumed (both endpoints min(_, first non-blank), anchored at the line start; seam byte established as the line break); dedent amount saturating; the backward line-break scan examines byte 0 before leaving; head/tail pair indices point at each other and spliced child indices are rebased by p -> p - offset + current + 1 under the guard offset <= p < end. Uniform shift amount and behaviour at nesting depth >= 2 beyond index validity are not decided.", ref="5 C12"),
     "C14": dict(cat="other", tech="static analysis: abstract-interpretation byte-class tables of the scanners + constant-argument query on scanner call sites + provenance grammar of formatter range endpoints",
                 text="Locality through its mechanisms: scanners stop at the first non-blank when pausing (complete tables), every seam formatter calls them pausing, every returned endpoint is seam / pausing-scan result (+1), dedent ranges are clamped per line. Decides these clauses, not verbatim survival of every stretch.", ref="5 C02/C14"),
+    "C15": dict(cat="other", tech="static analysis: sibling agreement on abstract-interpretation normal forms of the three entry points + effect reachability over the resolved call graph",
+                text="list and clean obtain regions from the same pure function on identically built inputs (normal forms of clean/list/list_all share tokenize/parse/build_remover; Remover::remove deletes exactly build_remove_marker's ranges; list renders all of them tagged Ready) and nothing reachable from the entry points is effectful, static-state dependent or iterates a hash container. Line numbers and highlighted text are not decided.", ref="5 C15"),
+    "C16": dict(cat="other", tech="static analysis: type/derive-expansion query for the JSON schema (keys read off the generated serialize body) + non-interference (taint) query for the colour flag + byte-0 path rule",
+                text="JSON shape fixed by types and the generated serialiser (keys line_range, annotated_code_block, current_status; Ready/Pending), both formats rendered from the same marker list with Some(line map); the colour flag only selects SGR constants that flow only into push_str/capacity; backward scanner examines byte 0. Columns, widths, tab expansion and marker placement are not decided.", ref="5 C16"),
     "C17": dict(cat="other", tech="static analysis: decision table of the pending/ready gating + loop-shape query on the pending/ready merge",
                 text="Clauses only: complete gating table (pending push exactly when not skip & registered & not verdict & collect_pending & built & non-empty; skip/unregistered/cannot-unwrap in neither list; ready list independent of the flag) and merge exhaustiveness (the pending cursor advances only inside an inner loop, each ready range pushed once unconditionally, pending tail appended). Squash test, once-each and order in general are not decided.", ref="5 C17"),
+    "C18": dict(cat="other", tech="static analysis: literal / constant queries + use-classification of the delimiter parameters + registry wiring + strip-once query",
+                text="Parametricity clauses: no default delimiter/tag spelling and no undocumented keyword literal in the library, integer literals in tokenizer/tag parser are 0 or 1, delimiters are used only as opaque character sequences and stripped exactly once, evaluators are keyed by the configured tag names. The relational statement itself is not decided.", ref="5 C18"),
+    "C20": dict(cat="other", tech="static analysis: path-enumerating abstract interpretation of chiritori-cli::main over the clap-expanded program (wiring, dispatch table, effect order) + clap Arg table query + effect whitelist",
+                text="Every path of main that reaches the library (40) is checked: option->field table, delimiter order, target set = file lines chained with flag values into a HashSet, complete dispatch table over (list, list_all, list_json), result written unmodified, input read before the output file is created, content is exactly one read, documented defaults only, effect whitelist without environment reads or zone-dependent time use. clap, the OS and I/O error exits are trusted / not decided.", ref="5 C20"),
 }
 
 NA = {
